@@ -327,7 +327,14 @@ def probe(fam, values):
 
 def run_model(prop, lines_with_obs):
     """lines 'fam value | obs' -> list of (model_obs, chk_model, chk_impl)"""
-    p = subprocess.run([DRIVER, "chk", prop], input="\n".join(lines_with_obs) + "\n",
+    def big_stack():
+        # the extracted list functions are not tail-recursive: bodies of several hundred KiB need a deep native stack
+        import resource
+        try:
+            resource.setrlimit(resource.RLIMIT_STACK, (resource.RLIM_INFINITY, resource.RLIM_INFINITY))
+        except (ValueError, OSError):
+            pass
+    p = subprocess.run([DRIVER, "chk", prop], input="\n".join(lines_with_obs) + "\n", preexec_fn=big_stack,
                        stdout=subprocess.PIPE, stderr=subprocess.PIPE, text=True,
                        timeout=int(os.environ.get("VERIF_MODEL_TIMEOUT", "1500")))
     if p.returncode != 0:
